@@ -15,8 +15,8 @@
    to (Rust's f64 Display / FromStr round trip and correctly rounded decimal parsing are assumptions of the
    model, exercised by the correspondence check).
 
-   [fversion]: OrigF = the folder before fixes/fold-negate.diff (+ the `%` part of
-   fixes/num-checked-arithmetic.diff), FixedF = after. *)
+   [fversion]: OrigF = the folder before fixes/fold-negate.diff and the `%` part of
+   fixes/num-rem-min-by-minus-one.diff, FixedF = after. *)
 From MS Require Export Num.NumImpl.
 
 Inductive fversion := OrigF | FixedF.
@@ -150,13 +150,21 @@ Definition cm_float (nonzero : bool) (f : float -> float -> float) (x y : number
               end
   end.
 
+(* <int>::checked_add / checked_sub / checked_mul = NumImpl.checked on the exact result *)
+Definition checked_div (t : ity) (x y : Z) : option Z :=          (* <int>::checked_div *)
+  if y =? 0 then None else if min_by_m1 t x y then None else Some (Z.quot x y).
 Definition checked_rem (t : ity) (x y : Z) : option Z :=          (* <int>::checked_rem *)
   if y =? 0 then None else if min_by_m1 t x y then None else Some (Z.rem x y).
+Definition exact_rem (t : ity) (x y : Z) : option Z :=            (* ExactRem: rhs == 0 ? None : wrapping_rem *)
+  if y =? 0 then None else Some (Z.rem x y).
 
 (* the checked integer operation named in number_impl!(.. as ..) *)
 Definition fold_int_fn (v : fversion) (t : ity) (o : aop) : Z -> Z -> option Z :=
   match o with
-  | Add => exact_add t | Sub => exact_sub t | Mul => exact_mul t | Div => exact_div t
+  | Add => fun x y => checked t (x + y)
+  | Sub => fun x y => checked t (x - y)
+  | Mul => fun x y => checked t (x * y)
+  | Div => checked_div t
   | Rem => match v with OrigF => checked_rem t | FixedF => exact_rem t end
   end.
 
